@@ -55,8 +55,25 @@ FOCUS = {
 }
 
 
+def covered(pid):
+    import glob
+    ts = []
+    for d in sorted(glob.glob('/verif/seeded/%s-*/meta.json' % pid)):
+        try:
+            ts.append(json.load(open(d)).get('title', '').strip())
+        except Exception:
+            pass
+    return ts
+
+
 def main():
     n1 = int(sys.argv[1])
+    if n1 >= 5:  # from round 4 on: any mechanism the property touches EXCEPT the ones earlier rounds already changed
+        for pid in sys.argv[2:]:
+            FOCUS[pid] = ("any mechanism, option or code path the property reaches that is NOT one of these, which earlier rounds "
+                          "already changed (their one-line titles): " + ' || '.join(covered(pid)) +
+                          " — look for the less obvious places: rarely used options and actions, error and boundary paths, "
+                          "platform-independent helper functions shared by several features, interactions of two options.")
     props = {json.loads(l)['id']: json.loads(l) for l in open('/verif/properties.jsonl')}
     head = subprocess.check_output(['git', '-C', '/repo', 'rev-parse', 'HEAD']).decode().strip()
     os.makedirs('/tmp/seed/prompts', exist_ok=True)
